@@ -32,6 +32,7 @@ class Z3Export:
         self.small_angle = small_angle
         self._trig = {}
         self.uf_decls = {}
+        self.bvars = {}
 
     def real(self, name):
         v = self.vars.get(name)
@@ -185,7 +186,9 @@ class Z3Export:
             if op == 'or':
                 return z3.Or(*a)
             if op == 'bv':
-                return z3.Bool(n.extra)
+                b = z3.Bool(n.extra)
+                self.bvars[n.extra] = b
+                return b
             raise EngineError("z3 export: bool op %s" % op)
 
 
@@ -203,6 +206,7 @@ class PolyExport:
         self.uf_decls = {}
         self._trig = {}
         self._lit_cache = {}
+        self.bvars = {}
 
     def gen(self, g):
         v = self.gv.get(g)
@@ -419,6 +423,7 @@ class PolyExport:
             r = z3.Or(*[self.lit(a) for a in sb.args])
         elif op == 'bv':
             r = z3.Bool(sb.extra)
+            self.bvars[sb.extra] = r
         else:
             raise EngineError("PolyExport: bool op %s" % op)
         self._lit_cache[sb.id] = r
@@ -428,6 +433,8 @@ class PolyExport:
         env = {}
         for name, v in self.vars.items():
             env[name] = _z3num(model.eval(v, model_completion=True))
+        for name, b in self.bvars.items():
+            env[name] = 1 if z3.is_true(model.eval(b, model_completion=True)) else 0
         return complete_env(self.alg, env)[0]
 
 
@@ -519,6 +526,8 @@ def _model_env(model, ex):
     for name, v in ex.vars.items():
         val = model.eval(v, model_completion=True)
         env[name] = _z3num(val)
+    for name, b in getattr(ex, 'bvars', {}).items():
+        env[name] = 1 if z3.is_true(model.eval(b, model_completion=True)) else 0
     return env
 
 
